@@ -57,6 +57,16 @@ var poolKeyOnly = []LeafDef{
 	{"/peer[name=k1][zone=k2]/zone", []string{"k2"}, "string"},
 }
 
+// poolSlashKeys: list entries whose key values contain the path separator, one a "/"-prefix of the other (a port and its
+// breakout ports): deleted together they are siblings, not ancestor and descendant.
+var poolSlashKeys = []LeafDef{
+	{"/if[name=e1/1]/descr", []string{"a", "b"}, "string"},
+	{"/if[name=e1/1/1]/descr", []string{"a", "b"}, "string"},
+	{"/if[name=e1/1/1]/mtu", []string{"1000", "2000"}, "uint"},
+	{"/if[name=e1/1/descr]/mtu", []string{"1000", "2000"}, "uint"},
+	{"/if[name=e1/1]/unit[id=1]/descr", []string{"u", "v"}, "string"},
+}
+
 // poolExtra: leaf-lists, presence containers, defaults.
 var poolExtra = []LeafDef{
 	{"/sys/dns", []string{"LL:a", "LL:a,b", "LL:b,a"}, "ll"},
@@ -119,6 +129,9 @@ func poolFor(name string) []LeafDef {
 			p = append(p, poolExtra...)
 		case "keyonly":
 			p = append(p, poolKeyOnly...)
+		case "slashkeys":
+			p = append(p, poolSlashKeys...)
+			p = append(p, poolSlashKeys...)
 		case "pres":
 			// (three times: a presence container with its own variant and children of the same owner is drawn often enough)
 			p = append(p, poolPresence...)
